@@ -90,9 +90,9 @@ Definition component_connect (secret : str) (e : env) : result :=
         end
   end.
 
-(* a stanza sent by the server after the reply reaches a route handler exactly when
-   the receive loop runs *)
-Definition probe_routed (r : result) : bool := r_recv r.
+(* "Stanzas are routed" is not modelled beyond [r_recv]: the receive loop (Model/Recv.v,
+   C05/C12) routes what it reads; that a stanza sent after the reply reaches a handler
+   exactly when [r_recv] holds is OBSERVED by the harness's probe, not proved. *)
 
 (* ---- several connections of one Component value.  Resume builds a new transport and
    computes the digest from the current stream id and the secret only; nothing of an
